@@ -54,23 +54,31 @@ def make_cases(chk, rng):
                 h.update(rng.randrange(256), rng.random() < 0.5)
         h.solve()
         cases.append(h.case(kind="random-history"))
-    # h crossing the infinity threshold both ways (without passing G again)
-    for i in range(40 if thorough else 10):
+    # h crossing the infinity threshold both ways
+    for i in range(60 if thorough else 15):
         be = rng.randrange(5)
         h = gen_sol.Hist(rng, f"x{i}", be, rng.choice([0, 1]), settings(2, be), dims=(2, 0, 2))
         pr = h.prob
+        pr.allow_hrow = True
         pr.h = [x if not isinstance(x, str) else F(1) for x in pr.h]
-        h.setup()
+        h.setup().precheck()
         keep = list(pr.h)
         pr.h = ["inf"] + keep[1:]
-        h.raw("sol.sqrtmode -1", "").raw("sol.update 1 " + pr.vec_arg("h", pr.h), "update(h->inf)").dump()
+        h.raw("sol.sqrtmode -1", "").raw("sol.update 1 " + pr.vec_arg("h", pr.h), "update(h->inf)").dump().precheck()
         h.solve()
-        # back to a finite, *active* value: the constraint must be enforced again
-        x0 = pr.x0
-        pr.h = [sum(pr.G[0][j] * x0[j] for j in range(pr.n)) - F(3)] + keep[1:]
-        h.raw("sol.sqrtmode -1", "").raw("sol.update 1 " + pr.vec_arg("h", pr.h), "update(h->finite)").dump()
+        mode = rng.choice(["G-alone", "h-finite-with-G", "h-finite-alone"])
+        if mode == "G-alone":
+            # new G while row 0 is disabled: the row must stay disabled
+            pr.G = gen_sol.rnd_mat(rng, pr.m, pr.n, pr.maskG)
+            h.raw("sol.sqrtmode -1", "").raw("sol.update 1 " + pr.mat_arg("G", pr.G, pr.maskG, pr.m, pr.n, h.sparse), "update(G)").dump().precheck()
+        elif mode == "h-finite-with-G":
+            pr.h = list(keep)
+            h.raw("sol.sqrtmode -1", "").raw("sol.update 1 " + pr.mat_arg("G", pr.G, pr.maskG, pr.m, pr.n, h.sparse) + " " + pr.vec_arg("h", pr.h), "update(G,h->finite)").dump().precheck()
+        else:
+            pr.h = list(keep)
+            h.raw("sol.sqrtmode -1", "").raw("sol.update 1 " + pr.vec_arg("h", pr.h), "update(h->finite)").dump().precheck()
         h.solve()
-        cases.append(h.case(kind="h-crossing"))
+        cases.append(h.case(kind="h-crossing", mode=mode))
     return cases
 
 
@@ -89,6 +97,15 @@ def run(replay=None):
         r = res.get(c["name"])
         if not r or not r["corr_ok"]:
             continue
+        # data coherence after every op of the h-crossing histories: the stored (scaled) data must be the user's current data
+        if c["meta"].get("kind") == "h-crossing" and not r["trapped"]:
+            for k, chkres in enumerate(r["checks"]):
+                fails = chkres.get("pre", [])
+                if fails:
+                    sig = "impl:h-row:reenable" if c["meta"]["mode"] == "h-finite-alone" else f"impl:h-row:{c['meta']['mode']}:{fails[0]}"
+                    chk.violation(sig, "after this update history the solver's stored problem is not the user's current problem "
+                                  "(blocks that differ: " + ", ".join(fails) + f")\ncase {c['name']} check #{k} meta={c['meta']}\n\ninput:\n" + case_text(c))
+                    break
         solves = solcommon.solve_events(r["events"])
         for k, ((status, dump), chkres) in enumerate(zip(solves, r["checks"])):
             if status != 1:
